@@ -8,7 +8,7 @@ Merges the delivery of a builder sub-agent that worked in a private copy:
     every `import` line the copy has and /verif lacks is appended);
   * every other differing file is only REPORTED (merge by hand).
 Nothing is committed."""
-import filecmp, os, shutil, sys
+import filecmp, os, shutil, subprocess, sys
 
 V = os.path.dirname(os.path.dirname(os.path.abspath(__file__)))
 copy = sys.argv[1].rstrip("/")
@@ -26,6 +26,17 @@ def walk(root):
             yield os.path.join(dp, f)
 
 
+def history(rel):
+    """every committed version of /verif/<rel> (the copy was taken from one of them)"""
+    r = subprocess.run(["git", "-C", V, "log", "--format=%H", "-n", "40", "--", rel], capture_output=True, text=True)
+    out = []
+    for c in r.stdout.split():
+        g = subprocess.run(["git", "-C", V, "show", c + ":" + rel], capture_output=True, text=True)
+        if g.returncode == 0:
+            out.append(g.stdout)
+    return out
+
+
 new, tails, manual = [], [], []
 for r in ROOTS:
     for p in walk(os.path.join(copy, r)):
@@ -34,6 +45,8 @@ for r in ROOTS:
         if not os.path.exists(q):
             new.append(rel)
         elif not filecmp.cmp(p, q, shallow=False):
+            if open(p).read() in history(rel):
+                continue        # an older committed version: the builder did not touch this file
             if rel == "lean/Gnmi.lean":
                 a = open(q).read().split("\n")
                 add = [l for l in open(p).read().split("\n") if l.startswith("import ") and l not in a]
